@@ -156,6 +156,17 @@ add(
     "The writer finishes normally (complete final file). No per-poll lower bound is demanded (the LAMMPS reader may spend a poll on a lone newline; callers tolerate it).",
 )
 
+add(
+    "C16",
+    "property-based testing (Hypothesis) of modify_velocities on five engine classes built from generated input directories + statistical tests with harness-side unit constants",
+    "CP2K, LAMMPS, GROMACS (infretis_genvel), ASE and TurtleMD engines are constructed from generated inputs (atom counts, element masses incl. "
+    "integer-typed masses, positions, old velocities, temperatures, zero_momentum settings, stream seeds); modify_velocities is checked per call with "
+    "independent readers of the written frame (positions/box/identities preserved, source frame byte-identical, zero momentum, kin_new = 1/2 sum m "
+    "v^2 of the written velocities, dek, reproducible from the job stream only, global RNG untouched) and statistically (per atom mean 0 and "
+    "<m v^2> = kT within 6 SE, chi-square normality) with CODATA-style constants that are not taken from the engine modules. Sampled.",
+    "Velocities generated by the external GROMACS binary are outside the property. Tolerances follow the written precision (15.9f in xyz/g96).",
+)
+
 NOT_YET = "check not built yet in this session (design exists in DESIGN.md §4); will be claimed once its check is registered"
 
 
